@@ -7,6 +7,8 @@ use noodles_sam::header::ReferenceSequences;
 use self::reference_sequence::read_reference_sequence;
 use crate::io::reader::num::read_u32_le;
 
+const MAX_PREALLOCATED_LEN: usize = 1 << 16;
+
 pub(super) fn read_reference_sequences<R>(reader: &mut R) -> io::Result<ReferenceSequences>
 where
     R: Read,
@@ -15,7 +17,8 @@ where
         usize::try_from(n).map_err(|e| io::Error::new(io::ErrorKind::InvalidData, e))
     })?;
 
-    let mut reference_sequences = ReferenceSequences::with_capacity(n_ref);
+    // `n_ref` is untrusted: reserve a bounded amount and let the map grow with the data actually read.
+    let mut reference_sequences = ReferenceSequences::with_capacity(n_ref.min(MAX_PREALLOCATED_LEN));
 
     for _ in 0..n_ref {
         let (name, reference_sequence) = read_reference_sequence(reader)?;
